@@ -136,6 +136,10 @@ func (g *Gen) run() (err error) {
 			name = g.c.ParamN[i]
 		}
 		g.params[name] = v
+		if g.entryParams == nil {
+			g.entryParams = map[string]Val{}
+		}
+		g.entryParams[name] = v
 		g.paramSMT = append(g.paramSMT, n)
 	}
 	for i, fv := range fn.FreeVars {
